@@ -32,7 +32,7 @@ OPS = ["rbind", "rbind", "rbind", "select", "unselect", "rename", "cbind", "upda
 PROMOTE = {"int": ["int", "float", "bool"], "float": ["float", "int", "bool"], "bool": ["bool", "int"], "date": ["date", "datetime"],
            "datetime": ["datetime", "date"], "str": ["str", "lstr", "ustr"], "lstr": ["lstr", "str"], "ustr": ["ustr", "str"], "obool": ["obool"], "obj": ["obj"],
            "timedelta": ["timedelta"], "datetime_ns": ["datetime_ns", "datetime"], "uint64": ["uint64"], "float32": ["float32", "float"]}
-NAMES = ["a", "b", "c", "d", "e", "f", "ab", "e_f"]      # some names are substrings of others
+NAMES = ["a", "b", "c", "d", "e", "f", "ab", "e_f", "a*", "e?", "[ab]"]      # some names are substrings of others, some look like shell / regex patterns
 
 def generate(rng, tier):
     tags = set()
